@@ -1338,6 +1338,35 @@ def c14_gen_msg(rng, big=False):
     return ['R', v] + t
 
 
+def c14_small_capacity_syncs(run):
+    """L4: whole syncs through the real channels with a tiny capacity (override hook), so that every sender is held back again and again
+    while the boss consumes with try_recv / select: everything must arrive (destination == source) and the run must end"""
+    from . import l3, l4
+    import shutil
+    ok, out = C.build_cli()
+    sb = l4.Sandbox(); sb.place_remote('same')
+    try:
+        for k, (cap, nfiles, fsize, place) in enumerate([(2000, 1200, 10, ''), (20000, 40, 100_000, ''), (3000, 300, 3000, 'localhost:')] + ([(1000, 5000, 1, ''), (50000, 20, 2_000_000, 'localhost:')] if run.tier == 'thorough' else [])):
+            base = os.path.join(sb.dir, f'cap{k}'); src, dst = base + '/src', base + '/dst'; os.makedirs(src)
+            for i in range(nfiles):
+                with open(os.path.join(src, f'f{i:05d}'), 'wb') as f: f.write(l3.content(i, fsize))
+            r = l4.run_cli([src + '/', place + dst + '/', '--no-progress'], env=sb.env({'RJRSSYNC_VERIF_CAPACITY': str(cap)}), timeout=90)
+            same = r['rc'] == 0 and l3.snapshot(src) == l3.snapshot(dst)
+            run.case(('small-capacity-sync', cap, nfiles, fsize, place), True, sample=dict(layer='L4', capacity=cap, files=nfiles, file_bytes=fsize, placement=place or 'local', rc=r['rc'], wall_s=round(r['wall'], 1)))
+            run.count('small-capacity-sync'); run.cov['traces_validated_against_impl'] += 1
+            if not same:
+                run.violation(dict(kind='oracle-failed-on-implementation', oracle='with any capacity every message still arrives exactly once, in order: the sync completes and the destination equals the source', layer='L4',
+                                   capacity_override=cap, files=nfiles, file_bytes=fsize, placement=place or 'local', rc=r['rc'], timed_out=r['timeout'], stderr=r['err'][-400:]))
+                break
+            shutil.rmtree(base, ignore_errors=True)
+    finally:
+        sb.close()
+
+
+FALLBACKS.setdefault('C14', []).append(c14_small_capacity_syncs)
+FALLBACKS.setdefault('C09', []).append(c14_small_capacity_syncs)
+
+
 @prop('C14')
 def check_C14(run):
     thorough = run.tier == 'thorough'
@@ -1435,6 +1464,8 @@ def check_C14(run):
             run.violation(dict(kind='oracle-failed-on-implementation', oracle='every payload size from empty to the largest chunk crosses the encrypted link intact, exactly once, in order (both directions)',
                                layer='link', payload_sizes=g, impl=ans, want=want, first_payload_size_not_delivered=first))
             break
+
+    c14_small_capacity_syncs(run)
 
     def on_broken(failed):
         if chan_fail:
